@@ -253,7 +253,7 @@ class FSM(addons.AddonPersistence, block.SBlock):
         self._on_notrans = block.event_tuple(on_notrans)
         self._state: str|block._UndefType = block.UNDEF
         self._active_timer: asyncio.TimerHandle|None = None
-        self._timers_enabled = True
+        self._timers_enabled = False    # timers are allowed from start() to stop()
         self._fsm_event_active = False
         # scheduled event in chained state transition, format: (event, data, newstate)
         self._next_event: tuple[str|block.EventType, Mapping, str]|None = None
@@ -321,6 +321,11 @@ class FSM(addons.AddonPersistence, block.SBlock):
     def init_from_value(self, value: str) -> None:
         """Initialize the internal state."""
         self.event(Goto(value))
+
+    def start(self) -> None:
+        """Allow timers."""
+        super().start()
+        self._timers_enabled = True
 
     def stop(self) -> None:
         """Cleanup."""
